@@ -36,6 +36,18 @@ fn gen_spec(rng: &mut Rng, fam: usize, res: &str, id: String, invalid: bool) -> 
     match fam {
         0 => {
             let mut s = FlowSpec::reject(&id, res, rng.range(1, 6) as f64, *rng.pick(&[0u32, 1000, 2000]));
+            if rng.chance(1, 5) {
+                // warm-up rules: period and cold factor take part in enforcement (0 means the default factor 3)
+                s.calc = 1;
+                s.threshold = *rng.pick(&[30.0f64, 60.0]);
+                s.warm_period = *rng.pick(&[1u32, 5]);
+                s.warm_cold = *rng.pick(&[0u32, 2, 3, 4]);
+            } else if rng.chance(1, 4) {
+                // throttling rules: their statistic interval is the pacing interval
+                s.ctrl = 1;
+                s.max_queue_ms = *rng.pick(&[0u32, 100]);
+                s.interval_ms = *rng.pick(&[0u32, 1000, 10_000]);
+            }
             if invalid {
                 match rng.below(3) {
                     0 => s.threshold = -1.0,
@@ -60,7 +72,7 @@ fn gen_spec(rng: &mut Rng, fam: usize, res: &str, id: String, invalid: bool) -> 
                 min_req: rng.range(1, 3),
                 interval_ms: *rng.pick(&[1000u32, 2000]),
                 buckets: *rng.pick(&[1u32, 2]),
-                max_rt: 10,
+                max_rt: *rng.pick(&[10u64, 10, 50]),
                 threshold: *rng.pick(&[0.5f64, 1.0]),
             };
             if invalid {
@@ -85,9 +97,11 @@ fn gen_spec(rng: &mut Rng, fam: usize, res: &str, id: String, invalid: bool) -> 
                 max_queue_ms: 0,
                 burst: 0,
                 duration_s: if metric == 1 { rng.range(1, 2) } else { 0 },
-                capacity: 0,
-                specific: vec![],
+                capacity: *rng.pick(&[0usize, 0, 100]),
+                specific: if rng.chance(1, 3) { vec![("a".to_string(), rng.range(1, 5))] } else { vec![] },
             };
+            s.burst = if s.ctrl == 0 { *rng.pick(&[0u64, 0, 2]) } else { 0 };
+            s.max_queue_ms = if s.ctrl == 1 { *rng.pick(&[0u64, 0, 100]) } else { 0 };
             if invalid {
                 if rng.chance(1, 2) {
                     s.metric = 1;
@@ -502,7 +516,11 @@ fn run(sc: &Scn, w: &mut World, tr: &mut Trace, cov: &mut Cov) -> Option<Violati
                     }
                 }
                 // behavioural enforcement for flow and isolation: admissions until the first block
-                if fam == 0 || fam == 3 {
+                let all_reject = want.iter().all(|j| match &sc.pool[*j] {
+                    AnySpec::Flow(s) => s.ctrl == 0 && s.calc == 0,
+                    _ => true,
+                });
+                if (fam == 0 && all_reject) || fam == 3 {
                     let min_thr: Option<u64> = want
                         .iter()
                         .map(|j| match &sc.pool[*j] {
